@@ -1,4 +1,5 @@
 import NxModel.Nex.RmcClientMulti
+import NxModel.Nex.RmcClientAbort
 import NxModel.DriverUtil
 /-! line-protocol driver for the RMC client call-matching model (stateful; a process = a list of model objects, one per
     live connection, `Nx.RmcClient.lift` applies a line to the selected one)
@@ -15,6 +16,7 @@ import NxModel.DriverUtil
   recv <hex>         -> outs | crash <Err>      one datagram through `RMCMessage.parse` + the loop body
   eof | cleanup      -> outs
   wake <t>           -> outs
+  abort <t>          -> aborted t | notask t    the suspended request() of task <t> ended with an exception of send() / a cancellation
   dump               -> state next=.. tasks=.. closed=.. requests=[..] responses=[..] frames=[t:id:ready ..]
   outs = `;`-joined: sent t id | done t body <hex> | done t rmc <code> | done t closed | done t none |
          done t keyerror | set t | warn id | closing t,t,.. | notready t | notask t |
@@ -138,6 +140,13 @@ def stepLine (d : D) (line : String) : D × String :=
   | ["wake", t] =>
     match t.toNat? with
     | some t => apply d (.wake t)
+    | none => (d, "bad-op")
+  | ["abort", t] =>
+    match t.toNat? with
+    | some t =>
+      match astep d.x (.abort t) with
+      | (x', [.aborted _]) => ({ d with x := x', a := d.a.abort t }, s!"aborted {t}")
+      | (x', _) => ({ d with x := x' }, s!"notask {t}")
     | none => (d, "bad-op")
   | ["dump"] => (d, dump d.x.core)
   | _ => (d, "bad-op")
